@@ -18,14 +18,35 @@ ASSUMPTIONS = [
     "environment, not qpdf",
     "libstdc++ 12: std::cout is a stdio_sync_filebuf over stdout (fwrite/fflush through the PLT), ostream::write sets badbit on a "
     "short sputn, ostream::flush calls pubsync whatever the state, ios_base::Init's destructor flushes cout at exit",
-    "faults are persistent for a stream (a full device stays full, RLIMIT_FSIZE stays); data the kernel accepted and lost later, "
-    "and fsync semantics, are outside",
+    "persistent faults (a full device stays full, RLIMIT_FSIZE stays) come from the LD_PRELOAD shim; transient faults (exactly one "
+    "write(2) fails with EINTR/EIO/ENOSPC, the following ones succeed) from harness/ptrace_inject.c (PTRACE_SYSCALL, x86_64) when "
+    "ptrace is permitted (coverage.ptrace_permitted); data the kernel accepted and lost later, and fsync semantics, are outside",
     "which checks the tree performs (pinned / repaired by proposed_fixes/D2_output_errors.diff) is inferred from the runs: the "
     "model must agree with the binary on EVERY case under one of the two check vectors",
 ]
 
 SHIM = os.path.join(common.BUILD, "shim_fault.so")
 WORKERS = min(4, common.NPROC)
+
+
+PTI = os.path.join(common.BUILD, "ptrace_inject")
+PTRACE_OK = [None]
+ERRNOS = {"eintr": 4, "eio": 5, "enospc": 28}
+
+
+def build_injector():
+    """the ptrace-based transient-fault injector; PTRACE_OK[0] says whether ptrace is permitted here"""
+    src = os.path.join(common.VERIF, "harness", "ptrace_inject.c")
+    with common.Lock("shim"):
+        if common._newer(PTI, [src]):
+            rc, out = common.sh(["gcc", "-O1", "-o", PTI, src], timeout=300)
+            if rc != 0:
+                raise common.InfraError("injector: harness/ptrace_inject.c does not compile", out.decode("utf-8", "replace")[-2000:])
+    log = os.path.join(common.BUILD, "ptrace_probe.%d.log" % os.getpid())
+    p = subprocess.run([PTI, "0", "4", "/nonexistent", log, "-", "--", "/bin/true"], stdout=subprocess.DEVNULL, stderr=subprocess.DEVNULL, timeout=60)
+    PTRACE_OK[0] = p.returncode == 0 and "EXIT 0" in open(log).read()
+    os.remove(log)
+    return PTRACE_OK[0]
 
 
 EXIT_ROUNDS = [2]
@@ -88,6 +109,24 @@ def make_inputs(wd, rng, tier, nrandom):
     bigw = doc(2, 5000, "warn")
     bigw = re.sub(rb"startxref\n\d+\n", b"startxref\n7\n", bigw)
     put("warn", bigw, warn=True)
+    # warnings that arise only WHILE WRITING: xref and trailer intact, one stream's /Length too small (same number of
+    # digits, so no offset moves); qpdf opens it silently and warns when QPDFWriter reads the stream
+    dl = pdfgen.page_doc(2, marker="Q")
+    rl = __import__("random").Random("c10/late")
+    dl.add(pdfgen.Stream({}, bytes(rl.randrange(256) for _ in range(5000))))
+    dl.objects[1][b"Extra"] = pdfgen.Ref(max(dl.objects))
+    late, _ = pdfgen.write_classic(dl)
+    assert late.count(b"/Length 5000") == 1
+    put("wlate", late.replace(b"/Length 5000", b"/Length 4000"), warn=True)
+    # a multi-block output: eight incompressible streams, so that stdio flushes many times
+    dm = pdfgen.page_doc(2, marker="Q")
+    rm_ = __import__("random").Random("c10/multi")
+    refs = [dm.add(pdfgen.Stream({}, bytes(rm_.randrange(256) for _ in range(3300 + 37 * k)))) for k in range(8)]
+    dm.objects[1][b"Extra"] = list(refs)
+    put("multi", pdfgen.write_classic(dm)[0])
+    # secondary files for --pages / --overlay: the damaged one sorts before the clean one
+    shutil.copy(inputs["warn"]["path"], os.path.join(wd, "a-damaged.pdf"))
+    shutil.copy(inputs["small"]["path"], os.path.join(wd, "z-clean.pdf"))
     for i in range(nrandom):
         put("rnd%d" % i, doc(rng.randint(1, 4), rng.choice([0, 3000, 4096, 7000, 8192, 12000]) + rng.randint(0, 900), "rnd%d" % i))
     # attachment (prepared with the binary under test, fault-free)
@@ -113,7 +152,24 @@ SCENARIOS = {
     "stdout": ("O", lambda i, d: ["--static-id", i, "-"]),
     "jsonstdout": ("O", lambda i, d: ["--json-output", i, "-"]),
     "replace": ("R", lambda i, d: ["--static-id", "--replace-input", d + "/outrep.pdf"]),
+    # --deterministic-id: the MD5 pipeline's Popper calls finish() on the file sink from a destructor
+    "plain-did": ("W", lambda i, d: ["--deterministic-id", i, d + "/out.pdf"]),
+    "linearize-did": ("W", lambda i, d: ["--deterministic-id", "--linearize", i, d + "/out.pdf"]),
+    "qdf-did": ("W", lambda i, d: ["--deterministic-id", "--qdf", i, d + "/out.pdf"]),
+    "split-did": ("S", lambda i, d: ["--deterministic-id", "--split-pages", i, d + "/out-%d.pdf"]),
+    "replace-did": ("R", lambda i, d: ["--deterministic-id", "--replace-input", d + "/outrep.pdf"]),
+    # several input files: the warnings of every file count
+    "pages": ("W", lambda i, d: ["--static-id", i, "--pages", _sib(i, "a-damaged.pdf"), "1", _sib(i, "z-clean.pdf"), "1", "--", d + "/out.pdf"]),
+    "pagesempty": ("W", lambda i, d: ["--static-id", "--empty", "--pages", _sib(i, "a-damaged.pdf"), "1", _sib(i, "z-clean.pdf"), "1", "--", d + "/out.pdf"]),
+    "overlay": ("W", lambda i, d: ["--static-id", i, "--overlay", _sib(i, "a-damaged.pdf"), "--", d + "/out.pdf"]),
+    "underlay": ("W", lambda i, d: ["--static-id", i, "--underlay", _sib(i, "a-damaged.pdf"), "--", d + "/out.pdf"]),
 }
+# jobs whose warnings come from a file other than the primary input
+SCEN_WARNS = {"pages", "pagesempty", "overlay", "underlay"}
+
+
+def _sib(i, name):
+    return os.path.join(os.path.dirname(i), name)
 
 
 # ------------------------------------------------------------------ one run of the real binary
@@ -140,7 +196,14 @@ def run_binary(rundir, scen, inp, fault, keep=False, extra_args=()):
     env.update({"LD_PRELOAD": SHIM, "QV_SHIM_MATCH": "./out", "QV_SHIM_LOGFD": str(w_fd)})
     if kind == "O":
         env["QV_SHIM_STDOUT"] = "1"
-    if fault != "none":
+    cmd = [common.QPDF] + argv
+    plog = None
+    if fault != "none" and fault.split("@")[0] in ERRNOS:
+        # exactly one write(2) on the outputs fails; LD_PRELOAD is set by the tracer for the tracee only
+        m, v = fault.split("@")
+        plog = os.path.join(rundir, "ptrace.log")
+        cmd = [PTI, v, str(ERRNOS[m]), "./out", plog, env.pop("LD_PRELOAD"), "--"] + cmd
+    elif fault != "none":
         m, v = fault.split("@")
         if m == "cap":
             env["QV_SHIM_FSIZE"] = v
@@ -150,7 +213,7 @@ def run_binary(rundir, scen, inp, fault, keep=False, extra_args=()):
     so_path = os.path.join(rundir, "out.stdout")
     with open(so_path, "wb") as so:
         try:
-            p = subprocess.run([common.QPDF] + argv, stdout=so, stderr=subprocess.PIPE, env=env, pass_fds=(w_fd,), timeout=120, cwd=rundir)
+            p = subprocess.run(cmd, stdout=so, stderr=subprocess.PIPE, env=env, pass_fds=(w_fd,), timeout=120, cwd=rundir)
             rc, se = p.returncode, p.stderr
         except subprocess.TimeoutExpired:
             rc, se = -999, b"timeout"
@@ -163,12 +226,20 @@ def run_binary(rundir, scen, inp, fault, keep=False, extra_args=()):
         chunks.append(b)
     os.close(r_fd)
     res = Run()
+    if plog is not None:
+        pl = open(plog).read() if os.path.exists(plog) else ""
+        m_ = re.search(r"SIGNAL (\d+)", pl)
+        if m_:
+            rc = -int(m_.group(1))
+        res.kernel_writes = len(re.findall(r"^W ", pl, re.M))
+    if rc == -6:
+        rc = 134       # SIGABRT (std::terminate): the status a shell reports
     res.rc = rc
     res.stderr = se
     res.log = b"".join(chunks).decode("latin-1")
     res.files = {}
     for fn in os.listdir(rundir):
-        if fn.startswith("out") and (fn != "out.stdout" or kind == "O"):
+        if fn.startswith("out") and (fn != "out.stdout" or kind == "O"):     # (ptrace.log does not start with "out")
             with open(os.path.join(rundir, fn), "rb") as f:
                 res.files["<stdout>" if fn == "out.stdout" else fn] = f.read()
     res.argv = ["qpdf"] + [os.path.basename(a) if a == inp["path"] else a for a in argv]
@@ -237,6 +308,8 @@ def diag_of_stderr(se):
     for line in se.decode("latin-1").split("\n"):
         if "operation succeeded with warnings" in line:
             out.append("W")
+        elif "terminate called" in line:
+            out.append("T")
         elif "there are warnings; original file kept in" in line:
             out.append("K")
         elif "unable to delete original file" in line:
@@ -402,6 +475,9 @@ def build_scenario(scen, inp, ref, rundir, repaired_shape):
         if kind == "R":
             return "R!1!2!3!%s!%s" % (lens_str(lens.get(3, [])), hexs(sc.new))
     sc.spec = spec
+    # --deterministic-id: finish() calls on the (first) file sink that precede Writer::write's own
+    first_file = [i for i in order if not (kind == "R" and i != 3)][:1]
+    sc.pops = max(0, nflush.get(first_file[0], 1) - 1) if (first_file and kind in "WSR") else 0
     # stdout scenarios on inputs with warnings: trailing flush count of the same scenario on an input without
     # warnings (set by evaluate): the difference is the cerr insertions of the closing messages
     sc.nonwarn_trailing = None
@@ -439,6 +515,9 @@ def faults_for(sc, chk, kinds=("full", "fail", "disk", "cap"), limit=None):
         caps = set([0, 1, size - 1, size, size + 1, 4095, 4096, 4097, 8192])
         caps.update(int(size * i / steps) for i in range(steps + 1))
         out += ["cap@%d" % c for c in sorted(c for c in caps if 0 <= c <= size + 1)]
+    for m in ERRNOS:
+        if m in kinds:
+            out += ["%s@%d" % (m, k) for k in range(1, getattr(sc, "kernel_writes", 0) + 1)]
     if "killb" in kinds:
         out += ["killb@%d" % k for k in ks]
     if "killa" in kinds:
@@ -446,21 +525,29 @@ def faults_for(sc, chk, kinds=("full", "fail", "disk", "cap"), limit=None):
     return out
 
 
-PINNED, REPAIRED = "000000", "111111"
-CHECK_NAMES = ["Pl_StdioFile::finish", "Writer::write fclose", "writeJSONStreamFile fclose", "writeJSON finish+close", "Pl_OStream::finish", "realmain stdout"]
+PINNED, REPAIRED, REPAIRED_D2 = "0000000", "1111111", "1111110"
+CHECK_NAMES = ["Pl_StdioFile::finish", "Writer::write fclose", "writeJSONStreamFile fclose", "writeJSON finish+close", "Pl_OStream::finish", "realmain stdout",
+               "Popper destructor does not throw"]
 
 
 def vec_name(vec):
     if vec == PINNED:
         return "pinned (results of fflush/fclose/stream state not looked at)"
     if vec == REPAIRED:
-        return "repaired (proposed_fixes/D2_output_errors.diff)"
+        return "repaired (D2_output_errors.diff + D2b_no_throw_in_popper.diff)"
+    if vec == REPAIRED_D2:
+        return "D2 repaired (c4309d60); a throwing finish() inside the Popper destructor still ends in std::terminate (D2b not applied)"
     return "partially repaired: checked = " + ", ".join(n for n, b in zip(CHECK_NAMES, vec) if b == "1")
 
 
+def model_fault(f):
+    m = f.split("@")[0]
+    return "once@" + f.split("@")[1] if m in ERRNOS else f
+
+
 def model_lines(sc, inp, faults, B, vec, verbose=False, wx0=False):
-    return "%s %s %d %d %d %d %s %s %s" % ("c10trace" if verbose else "c10run", vec, B, EXIT_ROUNDS[0],
-                                            1 if inp["warn"] else 0, 1 if wx0 else 0, sc.spec(vec), hexs(sc.orig), ",".join(faults))
+    return "%s %s %d %d %d %d %d %s %s %s" % ("c10trace" if verbose else "c10run", vec, B, EXIT_ROUNDS[0], sc.pops,
+                                               1 if inp["warn"] else 0, 1 if wx0 else 0, sc.spec(vec), hexs(sc.orig), ",".join(map(model_fault, faults)))
 
 
 # ------------------------------------------------------------------ the property on what the binary did
@@ -493,15 +580,28 @@ def surface(fails, fault, kind="W"):
 def run_group(chk, runner, wd, scen, iname, inp, B, limit, kinds=("full", "fail", "disk", "cap"), pid="C10"):
     """one scenario x one input: fault-free run, scenario, all faults on the binary, both model variants.
     Returns dict with everything the verdict needs."""
+    if scen in SCEN_WARNS:
+        inp = dict(inp, warn=True)
     rd0 = os.path.join(wd, "%s-%s-ref" % (scen, iname))
     ref = run_binary(rd0, scen, inp, "none")
-    g = {"scen": scen, "input": iname, "ref": ref, "rundir0": rd0}
+    g = {"scen": scen, "input": iname, "ref": ref, "rundir0": rd0, "inp": inp}
     if ref.rc not in (0, 3):
         g["broken"] = "fault-free run exits %d: %s" % (ref.rc, ref.stderr.decode("latin-1")[-300:])
         return g
     # (an exit status that does not match the warnings printed is left to the specification, which sees this run as fault 'none')
+    if scen in SCEN_WARNS:
+        # the model's `warn` is QPDFJob's m->warnings at the end of the job; whether the warnings of a secondary file reach
+        # it is not the sinks' business: taken from the closing message, and the specification judges exit status
+        # against the WARNING lines actually printed
+        inp = dict(inp, warn=b"operation succeeded with warnings" in ref.stderr)
+        g["inp"] = inp
     sc = build_scenario(scen, inp, ref, rd0, False)
     g["sc"] = sc
+    if any(m in kinds for m in ERRNOS):
+        if not PTRACE_OK[0]:
+            kinds = tuple(k for k in kinds if k not in ERRNOS)
+        else:   # how many write(2) calls the output gets: a run under the tracer that injects nothing
+            sc.kernel_writes = run_binary(os.path.join(wd, "%s-%s-count" % (scen, iname)), scen, inp, "eintr@0").kernel_writes
     faults = ["none"] + faults_for(sc, chk, kinds, limit)
     g["faults"] = faults
 
@@ -554,14 +654,14 @@ def evaluate(chk, runner, groups, B, pid="C10"):
                     cmpo, flags = model_fields(o)
                     if cmpo != g["impl"][j][0]:
                         diffs[v].append((g, j, cmpo))
-    run_vectors([PINNED, REPAIRED])
+    run_vectors([PINNED, REPAIRED, REPAIRED_D2])
     if min(len(d) for d in diffs.values()) > 0:
         # neither the pinned nor the fully repaired sinks: is it a tree that performs some of the checks?  Greedy search,
         # one check at a time, re-running only the scenario kinds that the check can influence.
-        kinds_of = ["WSJR", "WSR", "J", "J", "O", "O"]
-        base = min([PINNED, REPAIRED], key=lambda v: len(diffs[v]))
+        kinds_of = ["WSJR", "WSR", "J", "J", "O", "O", "WSR"]
+        base = min([PINNED, REPAIRED, REPAIRED_D2], key=lambda v: len(diffs[v]))
         for _ in range(2):
-            for i in range(6):
+            for i in range(7):
                 cand = base[:i] + ("0" if base[i] == "1" else "1") + base[i + 1:]
                 if cand in diffs:
                     continue
@@ -570,7 +670,7 @@ def evaluate(chk, runner, groups, B, pid="C10"):
                     base = cand
             if not diffs[base]:
                 break
-    variant = min(sorted(diffs), key=lambda v: (len(diffs[v]), v != PINNED, v != REPAIRED, v))
+    variant = min(sorted(diffs), key=lambda v: (len(diffs[v]), v != REPAIRED, v != REPAIRED_D2, v != PINNED, v))
     return variant, diffs, total
 
 
@@ -593,6 +693,8 @@ def report(chk, runner, groups, variant, diffs, B, pid="C10", sigprefix="C10"):
                                "expected_sizes": {k: len(v) for k, v in g["ref"].files.items()},
                                "failing_calls": x[2][:6], "signature": sig,
                                "replay": {"scenario": g["scen"], "input": g["input"], "fault": fault}}, signature=sig)
+                sigs = chk.cov.setdefault("specification_violations_by_signature", {})
+                sigs[sig] = sigs.get(sig, 0) + 1
                 nviol += 1
     if diffs[variant]:
         g, j, cmpo = diffs[variant][0]
@@ -631,24 +733,42 @@ def run(chk):
     B = os.stat(wd).st_blksize
     quick = chk.tier == "quick"
     inputs = make_inputs(wd, chk.rng, chk.tier, 0 if quick else 12)
-    plan = []
+    ALL = ("full", "fail", "disk", "cap")
+    limit = 110 if quick else None
+    plan = []      # (scenario, input, fault kinds, limit)
     scens = ["plain", "linearize", "qdf", "split", "json", "stdout", "jsonstdout", "replace"]
+    special = ("att", "wlate", "multi")
     for iname, inp in inputs.items():
-        if iname == "att":
-            plan.append(("attach", iname))
+        if iname in special:
             continue
         for s in scens:
             if quick and iname == "small" and s in ("linearize", "qdf", "jsonstdout"):
                 continue
             if quick and iname == "warn" and s in ("linearize", "qdf", "split", "jsonstdout"):
                 continue
-            plan.append((s, iname))
-    limit = 110 if quick else None
+            plan.append((s, iname, ALL, limit))
+    plan.append(("attach", "att", ALL, limit))
+    # --deterministic-id variants of the writer scenarios
+    for s in ("plain-did", "linearize-did", "qdf-did", "split-did", "replace-did"):
+        for iname in (["big"] if quick else [n for n in inputs if n not in special]):
+            plan.append((s, iname, ("full", "cap") if quick else ALL, 50 if quick else None))
+    # warnings that arise while writing
+    for s in ("plain", "stdout", "replace"):
+        plan.append((s, "wlate", ("full", "fail"), 25 if quick else None))
+    # several input files: exit status against the diagnostics printed
+    for s in ("pages", "pagesempty", "overlay", "underlay"):
+        plan.append((s, "small", ("full",), 6 if quick else 60))
+        if not quick:
+            plan.append((s, "big", ("full",), 60))
+    # exactly one write(2) fails (EINTR / EIO / ENOSPC), the following ones succeed: every write of a multi-block output
+    have_ptrace = build_injector()
+    chk.cov["ptrace_permitted"] = bool(have_ptrace)
+    if have_ptrace:
+        for s in ("plain", "replace", "plain-did") + (() if quick else ("linearize", "qdf", "replace-did")):
+            plan.append((s, "multi", tuple(ERRNOS), None))
     groups = []
-    for s, iname in plan:
-        g = run_group(chk, runner, wd, s, iname, inputs[iname], B, limit)
-        g["inp"] = inputs[iname]
-        groups.append(g)
+    for s, iname, kinds, lim in plan:
+        groups.append(run_group(chk, runner, wd, s, iname, inputs[iname], B, lim, kinds=kinds))
     variant, diffs, total = evaluate(chk, runner, groups, B)
     report(chk, runner, groups, variant, diffs, B)
     # /dev/full as the output path, no interposition at all
